@@ -218,6 +218,17 @@ def check_state_methods(ctx):
         ok = len(props) >= 1
         ctx.ob("C18.O1", q, ok, "the parent is propagated to" if ok else "no parent propagation call", key="propagate", where=f.where)
         if ok:
+            # the decision to propagate is a function of the tree alone (own parent, the other state and its parent): a guard
+            # that reads anything an event handler can change (the active flag, ...) makes the walk depend on what the
+            # handlers of this very step did
+            helpers_ = _pure_state_helpers(repo)
+            foreign = sorted({norm(a) for n_ in props for t_, _v in cfg.dominating_conditions(n_) for a in ast.walk(t_)
+                              if isinstance(a, ast.Attribute) and isinstance(a.value, ast.Name) and a.value.id == "self" and a.attr not in ("parent", "_parent") and a.attr not in helpers_})
+            ctx.ob("C18.O1", q, not foreign, f"{meth}(): parent propagation depends on the state tree only" if not foreign else
+                   f"{meth}(): the parent is propagated to only under a test of {foreign}: a handler of this step that changes it (a nested transition) makes an ancestor stay inactive / active",
+                   key="propagate-guard-state", where=f.where)
+            if foreign:
+                continue
             table = _propagation_table(cfg, props, meth, param, _pure_state_helpers(repo))
             facts[meth] = table
             ok = table is not None and all(v == "canonical" for v in table.values())
@@ -471,6 +482,33 @@ def check_events(ctx):
     ctx.ob("C18.E1", ga.qualname, ok, "events.<name> always yields the one Event object of that name (registration and fire meet)" if ok else "EventProducer.__getattr__ does not create-once-and-return the named Event", where=ga.where)
 
 
+def check_fresh_iterators(ctx):
+    """C18.E1: enter handlers fire events and request transitions themselves, so the containers a dispatch walks over are
+    iterated while they are being iterated.  Each `for` must get an iterator of its own: a container that hands out itself
+    (`__iter__` returns self, cursor stored on the container) lets the inner walk run the shared cursor to the end - the
+    outer dispatch stops early and the remaining observers never see the event."""
+    repo = ctx.repo
+    mod = repo.module("secsgem.common.events")
+    n = 0
+    for cls in [c for c in repo.classes.values() if c.module is mod]:
+        it = cls.methods.get("__iter__")
+        if it is None:
+            continue
+        n += 1
+        ctx.touch(it)
+        all_rets = [x for x in walk_no_nested(it.node) if isinstance(x, ast.Return)]
+        nothing = not all_rets or any(x.value is None or (isinstance(x.value, ast.Constant) and x.value.value is None) for x in all_rets)
+        ctx.ob("C18.E1", f"{cls.name}.__iter__", not nothing, f"{cls.name}.__iter__ hands out an iterator" if not nothing else f"{cls.name}.__iter__ returns nothing: every dispatch over {cls.name} fails", key="iterator-returned", where=it.where)
+        rets = [x for x in all_rets if x.value is not None]
+        returns_self = any(isinstance(r.value, ast.Name) and r.value.id == "self" for r in rets)
+        holds_more = any(m not in ("__iter__", "__next__", "__init__") for m in cls.methods)
+        bad = returns_self and "__next__" in cls.methods and holds_more
+        ctx.ob("C18.E1", f"{cls.name}.__iter__", not bad, f"every walk over {cls.name} gets an iterator of its own" if not bad else
+               f"{cls.name}.__iter__ returns the container itself and {cls.name}.__next__ keeps the cursor on it: a nested fire from a handler finishes the shared walk, the outer dispatch skips the remaining observers",
+               key="fresh-iterator", where=it.where)
+    ctx.floor("iterable event containers", n, 2)
+
+
 def check_wrappers_atomic(ctx):
     """A refused request raises and changes nothing: in the machines' request methods every write to the machine's own
     fields happens after _perform_transition returned (it raises on an unknown name / wrong source)."""
@@ -501,6 +539,7 @@ def check_wrappers_atomic(ctx):
 def run(ctx):
     check_wrappers_atomic(ctx)
     check_events(ctx)
+    check_fresh_iterators(ctx)
     check_transition_lookup(ctx)
     check_perform(ctx)
     check_transition_call(ctx)
